@@ -66,6 +66,14 @@ Example example_run_samples :
   /\ In ORet tr /\ In (OCode 2 (KHook HRun) (Some 0)) tr.
 Proof. vm_compute. repeat split; in_list. Qed.
 
+(* the scope events of the nested child (task 4, process 2, inherited stack [0]) and of the callback on process 1
+   scheduled from process 0's step (task 3) *)
+Example example_run_scope_events :
+  let tr := c_trace (run false ex_defs 400 ex_sched) in
+  In (OEnter 4 2 [0]) tr /\ In (OExit 4 2 [0]) tr /\ In (OEnter 3 1 [0]) tr /\ In (OExit 3 1 [0]) tr
+  /\ In (OEnter 1 0 []) tr /\ In (OExit 1 0 []) tr.
+Proof. vm_compute. repeat split; in_list. Qed.
+
 (* the nested child really ran on the stack [0; 2], and every task is back to its inherited stack at the end *)
 Example example_run_stacks :
   map (fun tk => (t_base tk, t_ctx tk)) (c_tasks (run false ex_defs 400 ex_sched))
